@@ -38,6 +38,19 @@ def main(argv):
             notes.append("translator failed: " + out[-400:])
             broken.append("translator")
         ok_all, mk = vf.build_coq()
+        # is the executable model still what the theorems are about?  Not when the translator could not read a table it is built
+        # from, when a Gen / Base / Model / tie file no longer compiles, or when extraction fails: the model then is no oracle
+        model_untrusted = []
+        try:
+            tp = json.load(open(os.path.join(vf.ROOT, ".build", "extract.json"))).get("problems") or []
+        except Exception:
+            tp = ["translator manifest unreadable"]
+        if tp:
+            model_untrusted.append("translator could not read: " + "; ".join(tp[:4]))
+        import re as _re0
+        failed_vo = _re0.findall(r"\*\*\* \[[^\]]*?:\s*((?:Gen|Base|Model)/\w+|Proofs/Tie\w*)\.vo\]", mk or "")
+        if failed_vo:
+            model_untrusted.append("does not compile: " + ", ".join(sorted(set(failed_vo))[:6]))
         ok_p, theorems, assumptions, pout = vf.check_property_file(pid)
         if not ok_p:
             broken.append("Properties/%s.v no longer checks: %s" % (pid, pout.strip()[-600:]))
@@ -51,6 +64,7 @@ def main(argv):
         if not ok:
             print("FATAL: model does not build:\n" + out[-2000:], file=sys.stderr)
             broken.append("extracted model does not build")
+            model_untrusted.append("extraction failed")
         ok_i, out = vf.build_impl()
         impl_built = ok_i
         if not ok_i:
@@ -114,7 +128,9 @@ def main(argv):
     if hasattr(prop, "extra"):
         # property-specific additional engines (race detector, end-to-end binary, exhaustive sweeps ...)
         ex = prop.extra(tier, rng, known)
-        extra_viol = ex.get("violations", [])
+        extra_viol = [x for x in ex.get("violations", []) if not x.get("no_failing_input")]
+        # an engine may report that its tie to the source is broken without having a failing input
+        broken += [x.get("verdict", "tie broken") for x in ex.get("violations", []) if x.get("no_failing_input")]
         extra_cov = ex.get("coverage", {})
         for k in ex.get("known", []):
             known_hits.setdefault(k["tag"], (k, k.get("what", ""), "", ""))
@@ -133,6 +149,19 @@ def main(argv):
     # a disagreement between the model and the implementation is a broken correspondence, not yet a failing input: the
     # property oracle of the check (RFC oracle, relational check, crash, specification-built expectation ...) decides that
     is_corr = lambda v: v[3].startswith("model/implementation disagreement")
+    if model_untrusted and not a.replay:
+        # the model is no oracle in this run: a verdict that disappears when the model is made to agree with the implementation
+        # rested on the model alone and is a broken correspondence, not a failing input; verdicts of the model-independent
+        # oracles (documented formats, relational checks on the implementation, crashes) stand
+        notes.append("executable model not trusted in this run (%s): model-dependent verdicts count as broken correspondence" % "; ".join(model_untrusted))
+        demoted = []
+        for (l, i, m, v) in violations:
+            try:
+                v2 = prop.judge(l, i, i)
+            except Exception:
+                v2 = v
+            demoted.append((l, i, m, v if v2 else "model/implementation disagreement (model not trusted in this run: %s): %s" % (model_untrusted[0][:120], v)))
+        violations = demoted
     prop_viol = [v for v in violations if not is_corr(v)]
     corr_viol = [v for v in violations if is_corr(v)]
     if prop_viol or extra_viol:
